@@ -20,6 +20,7 @@ type gen struct {
 	failing int  // percent of deliberately failing write shapes (C02)
 	base    time.Time
 	tag     int
+	wide    int // percent of update calls that use operators outside the reference model's domain
 }
 
 func newGen(r *rand.Rand) *gen {
@@ -212,7 +213,12 @@ func (g *gen) eqFilter() bson.D {
 }
 
 func (g *gen) updOne() bson.E {
-	switch g.r.IntN(16) {
+	switch g.r.IntN(18) {
+	case 16:
+		// through an array of documents / an array of scalars by position
+		return bson.E{Key: pick(g.r, "$inc", "$set"), Value: bson.D{{Key: pick(g.r, "items.0.k", "items.1.k", "t.0", "t.2"), Value: g.num()}}}
+	case 17:
+		return bson.E{Key: "$set", Value: bson.D{{Key: pick(g.r, "items.0.v", "items.1.v"), Value: g.str()}}}
 	case 0, 1:
 		return bson.E{Key: "$set", Value: bson.D{{Key: pick(g.r, "a", "b"), Value: g.num()}}}
 	case 2:
@@ -290,6 +296,141 @@ func (g *gen) badUpdate() bson.D {
 	}
 }
 
+// wideOne generates one update operator application outside the reference
+// model's domain (DESIGN 8): $push modifiers, $pullAll, $bit, positional
+// operators with and without array filters, numeric index paths, $rename into
+// embedded documents. Such calls are judged by the model-free oracles only
+// (change-log replay and update descriptions, index and uniqueness invariants,
+// before/after dumps of failing calls). af receives array filters.
+func (g *gen) wideOne(af *[]bson.D) (op bson.E, root string) {
+	n32 := func() int32 { return int32(g.r.IntN(5)) }
+	item := func() bson.D { return bson.D{{Key: "k", Value: g.num()}, {Key: "v", Value: g.str()}} }
+	switch g.r.IntN(24) {
+	case 0:
+		return bson.E{Key: "$push", Value: bson.D{{Key: "t", Value: bson.D{{Key: "$each", Value: bson.A{g.num(), g.num()}}, {Key: "$position", Value: pick(g.r, int32(0), int32(1), int32(-1), int32(7))}}}}}, "t"
+	case 1, 2:
+		return bson.E{Key: "$push", Value: bson.D{{Key: "t", Value: bson.D{{Key: "$each", Value: bson.A{g.num(), g.num()}}, {Key: "$slice", Value: pick(g.r, int32(-2), int32(0), int32(1), int32(2), int32(3), int32(6))}}}}}, "t"
+	case 3:
+		return bson.E{Key: "$push", Value: bson.D{{Key: "t", Value: bson.D{{Key: "$each", Value: bson.A{g.num()}}, {Key: "$sort", Value: pick(g.r, int32(1), int32(-1))}}}}}, "t"
+	case 4:
+		return bson.E{Key: "$push", Value: bson.D{{Key: "items", Value: bson.D{{Key: "$each", Value: bson.A{item()}}, {Key: "$sort", Value: bson.D{{Key: "k", Value: pick(g.r, int32(1), int32(-1))}}}, {Key: "$slice", Value: pick(g.r, int32(2), int32(3), int32(-2))}}}}}, "items"
+	case 5:
+		return bson.E{Key: "$push", Value: bson.D{{Key: "t", Value: bson.D{{Key: "$each", Value: bson.A{g.num(), g.num(), g.num()}}, {Key: "$position", Value: int32(1)}, {Key: "$slice", Value: pick(g.r, int32(2), int32(4), int32(-3))}}}}}, "t"
+	case 6:
+		return bson.E{Key: "$pullAll", Value: bson.D{{Key: "t", Value: bson.A{g.num(), g.num()}}}}, "t"
+	case 7:
+		return bson.E{Key: "$bit", Value: bson.D{{Key: pick(g.r, "a", "b", "cnt", "o.p"), Value: bson.D{{Key: pick(g.r, "and", "or", "xor"), Value: pick[any](g.r, int32(1), int32(6), int64(3))}}}}}, ""
+	case 8:
+		return bson.E{Key: "$inc", Value: bson.D{{Key: "t.$[]", Value: n32()}}}, "t" // fails where t holds a string
+	case 9:
+		return bson.E{Key: "$set", Value: bson.D{{Key: "items.$[].v", Value: g.str()}}}, "items"
+	case 10:
+		*af = append(*af, bson.D{{Key: "e.k", Value: bson.D{{Key: "$gte", Value: g.num()}}}})
+		return bson.E{Key: "$set", Value: bson.D{{Key: "items.$[e].v", Value: g.str()}}}, "items"
+	case 11:
+		*af = append(*af, bson.D{{Key: "f", Value: bson.D{{Key: pick(g.r, "$gte", "$lt"), Value: g.num()}}}})
+		return bson.E{Key: pick(g.r, "$inc", "$mul"), Value: bson.D{{Key: "t.$[f]", Value: n32()}}}, "t"
+	case 12:
+		return bson.E{Key: "$set", Value: bson.D{{Key: pick(g.r, "t.0", "t.1", "t.4"), Value: g.num()}}}, "t"
+	case 13:
+		return bson.E{Key: "$unset", Value: bson.D{{Key: pick(g.r, "t.0", "t.1", "items.0.v"), Value: ""}}}, ""
+	case 14:
+		return bson.E{Key: pick(g.r, "$set", "$min", "$max"), Value: bson.D{{Key: pick(g.r, "items.0.k", "items.1.k"), Value: g.num()}}}, "items"
+	case 15:
+		return bson.E{Key: "$inc", Value: bson.D{{Key: pick(g.r, "items.0.k", "t.0", "t.2"), Value: n32()}}}, ""
+	case 16:
+		return bson.E{Key: "$addToSet", Value: bson.D{{Key: "t", Value: bson.D{{Key: "$each", Value: bson.A{g.num(), g.num(), g.str()}}}}}}, "t"
+	case 17:
+		return bson.E{Key: "$pull", Value: bson.D{{Key: "t", Value: bson.D{{Key: pick(g.r, "$gte", "$lt", "$in"), Value: pick[any](g.r, g.num(), g.num())}}}}}, "t"
+	case 18:
+		return bson.E{Key: "$pull", Value: bson.D{{Key: "items", Value: bson.D{{Key: "k", Value: g.num()}}}}}, "items"
+	case 19:
+		return bson.E{Key: "$rename", Value: bson.D{{Key: pick(g.r, "a", "s"), Value: pick(g.r, "o.ren", "ren")}}}, "rename"
+	case 20:
+		return bson.E{Key: "$rename", Value: bson.D{{Key: "o.p", Value: pick(g.r, "p2", "o.p2")}}}, "rename"
+	case 21:
+		return bson.E{Key: "$set", Value: bson.D{{Key: "items", Value: bson.A{item(), item()}}}}, "items"
+	case 22:
+		return bson.E{Key: "$pop", Value: bson.D{{Key: "items", Value: pick(g.r, int32(1), int32(-1))}}}, "items"
+	default:
+		return bson.E{Key: "$push", Value: bson.D{{Key: "items", Value: item()}}}, "items"
+	}
+}
+
+// wideUpdate combines one to three wide (and ordinary) operators on different fields.
+func (g *gen) wideUpdate() (bson.D, []bson.D) {
+	var af []bson.D
+	var out bson.D
+	roots := map[string]bool{}
+	ops := map[string]bool{}
+	for n := 1 + g.r.IntN(3); n > 0; n-- {
+		var e bson.E
+		var root string
+		if len(out) > 0 && g.pct(40) {
+			e = g.updOne()
+			root = updField(e)
+			for i, c := range root {
+				if c == '.' {
+					root = root[:i]
+					break
+				}
+			}
+		} else {
+			naf := len(af)
+			e, root = g.wideOne(&af)
+			if root == "" {
+				root = updField(e)
+				for i, c := range root {
+					if c == '.' {
+						root = root[:i]
+						break
+					}
+				}
+			}
+			if roots[root] || ops[e.Key] || roots["rename"] || (root == "rename" && len(out) > 0) {
+				af = af[:naf]
+				continue
+			}
+		}
+		if roots[root] || ops[e.Key] || roots["rename"] || e.Key == "$rename" && len(out) > 0 && root != "rename" {
+			continue
+		}
+		roots[root], ops[e.Key] = true, true
+		out = append(out, e)
+	}
+	if len(out) == 0 {
+		e, _ := g.wideOne(&af)
+		out = bson.D{e}
+	}
+	return out, af
+}
+
+// widen turns an update call into a wide one with probability g.wide percent.
+func (g *gen) widen(op Op) Op {
+	if g.wide == 0 || !g.pct(g.wide) {
+		return op
+	}
+	switch op.K {
+	case "updateOne", "updateMany", "findOneAndUpdate":
+	default:
+		return op
+	}
+	u, af := g.wideUpdate()
+	op.U, op.Wide, op.AF = jd(u), true, nil
+	if g.pct(60) {
+		// make the update hit something
+		if op.K == "updateMany" {
+			op.F = jd(bson.D{})
+		} else {
+			op.F = jd(bson.D{{Key: "_id", Value: g.id()}})
+		}
+	}
+	for _, f := range af {
+		op.AF = append(op.AF, jd(f))
+	}
+	return op
+}
+
 func (g *gen) sortSpec() bson.D {
 	switch g.r.IntN(5) {
 	case 0:
@@ -319,7 +460,21 @@ func (g *gen) proj() bson.D {
 func (g *gen) coll() (string, string) { return pick(g.r, g.dbs...), pick(g.r, g.colls...) }
 
 func (g *gen) indexOp(db, c string) Op {
-	switch g.r.IntN(12) {
+	switch g.r.IntN(17) {
+	// the same name and key with different options: a conflicting definition must be refused
+	case 12:
+		return Op{K: "createIndex", DB: db, C: c, D: jd(bson.D{{Key: "b", Value: int32(1)}}), Unique: g.pct(50)}
+	case 13:
+		return Op{K: "createIndex", DB: db, C: c, D: jd(bson.D{{Key: "a", Value: int32(1)}}), Unique: g.pct(50), P: jd(bson.D{{Key: "b", Value: bson.D{{Key: "$gt", Value: int32(1)}}}})}
+	case 14:
+		return Op{K: "createIndex", DB: db, C: c, D: jd(bson.D{{Key: "b", Value: int32(1)}}), Unique: true, P: jd(bson.D{{Key: "a", Value: bson.D{{Key: "$gt", Value: int32(2)}}}})}
+	case 15:
+		ttl := int32(pick(g.r, 0, 60))
+		return Op{K: "createIndex", DB: db, C: c, D: jd(bson.D{{Key: "d", Value: int32(1)}}), TTL: &ttl, Unique: g.pct(30)}
+	case 16:
+		// expiry is a single-field option
+		ttl := int32(pick(g.r, 0, 60))
+		return Op{K: "createIndex", DB: db, C: c, D: jd(bson.D{{Key: "d", Value: int32(1)}, {Key: "a", Value: int32(1)}}), TTL: &ttl}
 	case 0:
 		return Op{K: "createIndex", DB: db, C: c, D: jd(bson.D{{Key: "a", Value: int32(1)}})}
 	case 1:
@@ -365,7 +520,9 @@ func (g *gen) bulkItem() Op {
 }
 
 // crud generates one driver-level call.
-func (g *gen) crud() Op {
+func (g *gen) crud() Op { return g.widen(g.crudPlain()) }
+
+func (g *gen) crudPlain() Op {
 	db, c := g.coll()
 	switch k := g.r.IntN(100); {
 	case k < 14:
